@@ -192,6 +192,9 @@ func runC05(c c05Case) (out lib.Outcome) {
 	}
 	if c.Err != nil {
 		out.Label("err:" + c.Err.Kind)
+		if c.Err.TB != "" && (c.Err.Kind == "rpc" || c.Err.Kind == "wrapped_rpc" || c.Err.Kind == "panic_rpc") {
+			out.Label("err:carries-own-traceback")
+		}
 	}
 	out.NonTrivial = c.Err == nil || c.Err.Kind != "rpc"
 	errs := c.collectErrors(&out)
@@ -271,11 +274,11 @@ func runC05(c c05Case) (out lib.Outcome) {
 
 var propC05 = lib.Prop[c05Case]{
 	ID: "C05",
-	Rule: "one failing call per case: error values (RpcError with any Type/Kind incl. exotic Type strings, plain, %w-wrapped RpcError/plain to depth 3, errors.Join, custom error types, kind-advertising custom error, panics with string/error/int/RpcError/runtime-error values) returned from unary handlers, stream init, producer turns and exchange turns, plus framework refusals (unknown method, protocol version, max_response_bytes, nil stream result, wrong state type, parameter mismatch), debug on/off, pipe and HTTP (following continuations); " +
+	Rule: "one failing call per case: error values (RpcError with any Type/Kind incl. exotic Type strings, plain, %w-wrapped RpcError/plain to depth 3, errors.Join, RpcError values that already carry a Traceback (as one relayed from an upstream call does), custom error types, kind-advertising custom error, panics with string/error/int/RpcError/runtime-error values) returned from unary handlers, stream init, producer turns and exchange turns, plus framework refusals (unknown method, protocol version, max_response_bytes, nil stream result, wrong state type, parameter mismatch), debug on/off, pipe and HTTP (following continuations); " +
 		"oracle: exception_type is the RpcError's Type, the documented wire name of a typed framework error, else RuntimeError — never a Go type name; message carried; error_kind iff advertised; traceback/frames iff debug. Non-trivial: the error is not a bare RpcError.",
 	Gen:          genC05,
 	Run:          runC05,
-	Essential:    []string{"where:unary", "where:init", "where:produce", "where:exchange", "where:framework", "err:plain", "err:panic_str", "fw:max_response_bytes"},
+	Essential:    []string{"where:unary", "where:init", "where:produce", "where:exchange", "where:framework", "err:plain", "err:panic_str", "err:carries-own-traceback", "fw:max_response_bytes"},
 	EssentialMin: 300,
 }
 
